@@ -38,6 +38,9 @@ import (
 	"verif/harness/internal/vf"
 
 	"github.com/yandex/pandora/core/engine"
+	"go.uber.org/zap"
+	"go.uber.org/zap/zapcore"
+	"go.uber.org/zap/zaptest/observer"
 	"pgregory.net/rapid"
 )
 
@@ -53,6 +56,8 @@ type Result struct {
 	DumpLines        int       `json:"shared_definition_dump_lines"`
 	Changed          []string  `json:"shared_definition_changes,omitempty"`
 	Rounds           int       `json:"rounds"`
+	Logged           []string  `json:"warnings_logged,omitempty"`
+	TransportErrors  int       `json:"transport_errors"`
 	File             string    `json:"file,omitempty"`
 }
 
@@ -106,7 +111,9 @@ func runRound(c Case, res *Result) {
 		pp.onFirst = func() { before = dumpShared(realProvider) }
 	}
 	m := pand.Metrics()
-	eng := engine.New(pand.NopLog(), m, conf)
+	// Warn level and above only: a logger that accepts Debug switches the guns into their verbose mode.
+	logCore, logs := observer.New(zapcore.WarnLevel)
+	eng := engine.New(zap.New(logCore), m, conf)
 	var runErr error
 	ok, stacks := vf.Deadline(90*time.Second, func() {
 		runErr = eng.Run(context.Background())
@@ -120,6 +127,29 @@ func runRound(c Case, res *Result) {
 		res.RunErr = runErr.Error()
 		viol.add("the pool run failed: %v", runErr)
 	}
+	transport := 0
+	for _, e := range logs.All() {
+		msg := e.Message
+		for _, f := range e.Context {
+			if f.Key == "error" {
+				if err, ok := f.Interface.(error); ok && err != nil {
+					msg += ": " + err.Error()
+				} else if f.String != "" {
+					msg += ": " + f.String
+				}
+			}
+		}
+		if len(res.Logged) < 12 {
+			res.Logged = append(res.Logged, e.Level.String()+" "+msg)
+		}
+		if isTransportError(msg) {
+			transport++
+		} else {
+			viol.add("the run logged a failure that is not a transport error (the target answers every request properly): %s %s", e.Level, msg)
+		}
+	}
+	res.TransportErrors += transport
+	b.strict = transport == 0
 	after := dumpShared(realProvider)
 	res.DumpLines = len(after)
 	if changes := diffDumps(before, after, 8); len(changes) > 0 {
@@ -139,10 +169,10 @@ func runRound(c Case, res *Result) {
 	res.Served += served
 	samples, tags := readOutput(c, b.outFile, viol)
 	res.Samples += samples
-	if samples != served {
+	if b.strict && samples != served {
 		viol.add("the target served %d requests, the %s aggregator wrote %d samples: every request a gun sends is reported exactly once", served, c.Agg, samples)
 	}
-	if tags != nil && b.expectTags != nil {
+	if b.strict && tags != nil && b.expectTags != nil {
 		want := b.expectTags()
 		for tag, n := range want {
 			if tags[tag] != n {
@@ -158,6 +188,19 @@ func runRound(c Case, res *Result) {
 	if rep.Shots != int64(c.Shots) {
 		viol.add("%d shots were fired, the provider was limited to %d ammo and the schedule had more tokens", rep.Shots, c.Shots)
 	}
+}
+
+// isTransportError: failures of the loopback connection itself (the machine is saturated by
+// parallel shards), as opposed to anything pandora's components did to the request.
+func isTransportError(msg string) bool {
+	for _, pat := range []string{"dial tcp", "i/o timeout", "connection reset", "broken pipe", "EOF", "context deadline exceeded",
+		"DeadlineExceeded", "Unavailable", "connection refused", "cannot assign requested address", "too many open files",
+		"Client.Timeout", "timeout awaiting response headers", "transport is closing", "connection error"} {
+		if strings.Contains(msg, pat) {
+			return true
+		}
+	}
+	return false
 }
 
 // TestChild executes the case named by C11_CHILD_CASE; it is only ever run by check() below.
@@ -508,6 +551,10 @@ func label(c Case, o *vf.Obs, res *Result) {
 	overlap := res.Guns.MaxActive >= 2
 	o.ClassIf(overlap, "overlap_measured")
 	o.ClassIf(res.Guns.MaxActive >= 4, "overlap_ge_4")
+	o.ClassIf(res.TransportErrors > 0, "transport_errors_under_load")
+	if len(res.Logged) > 0 {
+		o.Note("warnings_logged", res.Logged)
+	}
 	o.Note("guns", res.Guns)
 	o.Note("served", res.Served)
 	o.Note("dump_lines", res.DumpLines)
